@@ -35,6 +35,9 @@ def concretise(job, unit, res, workdir, log):
     """second, bounded run of a failing job to obtain a small concrete input, then native replay.
     returns dict(obligation, cex_inputs, reproduced, native_output, harness)"""
     out = dict(inputs=None, reproduced=False, native_output='', note='')
+    if job.get('cex_skip'):
+        out['note'] = 'no bounded search for this job: ' + str(job['cex_skip'])
+        return out
     try:
         ast = R.get_ast(workdir, unit['driver'], unit.get('defines', ()), unit.get('cflags', ()))
         specs = {k: R.expand_spec(v) for k, v in job.get('specs', {}).items()}
@@ -48,7 +51,7 @@ def concretise(job, unit, res, workdir, log):
         rec = [h for h in job.get('cex_recursive', ())]
         rename = {g: {h: h + '_cexstub' for h in rec} for g in rec if g != fn} if rec else None
         text, lw = R.lowered_text(ast, job['roots'], gspecs, cuts=job.get('cuts', ()), line_directives=False, drop_contracts=True, cut_qual=job.get('cut_qual', ()),
-                                  call_rename=rename)
+                                  call_rename=rename, uncut_qual=job.get('uncut_qual', ()))
         fwd = ''
         for h in rec:
             if h in lw.fn_info and job['specs'].get(h, {}).get('cex_stub'):
@@ -235,7 +238,7 @@ def validate_lowering(job, unit, workdir, seed, iters=20000):
     try:
         ast = R.get_ast(workdir, unit['driver'], unit.get('defines', ()), unit.get('cflags', ()))
         gspecs = {k: {kk: vv for kk, vv in v.items() if kk in ('ghost_returns',)} for k, v in job.get('specs', {}).items()}
-        text, lw = R.lowered_text(ast, job['roots'], gspecs, cuts=job.get('cuts', ()), line_directives=False, drop_contracts=True, cut_qual=job.get('cut_qual', ()))
+        text, lw = R.lowered_text(ast, job['roots'], gspecs, cuts=job.get('cuts', ()), line_directives=False, drop_contracts=True, cut_qual=job.get('cut_qual', ()), uncut_qual=job.get('uncut_qual', ()))
         if fn not in lw.fn_info or not lw.fn_info[fn]['has_body']:
             out['note'] = 'no body'
             return out
